@@ -163,7 +163,7 @@ func reach(start Loc, target func(ssa.Instruction) bool, stop func(ssa.Instructi
 				if it.ret != nil {
 					depth = it.ret.depth
 				}
-				if callee != nil && callee.Blocks != nil && depth < 3 && callee != it.b.Parent() && !onStack(it.ret, callee) && inlineOK(callee) {
+				if callee != nil && callee.Blocks != nil && depth < 3 && callee != it.b.Parent() && !onStack(it.ret, callee) && isHelper(callee) {
 					rp := &retPoint{b: it.b, idx: i + 1, parent: it.ret, depth: depth + 1, fn: it.b.Parent()}
 					queue = append(queue, &item{callee.Blocks[0], 0, rp, it})
 					descended = true
@@ -296,7 +296,7 @@ func withHelpers(fn *ssa.Function) []*ssa.Function {
 		for _, b := range out[i].Blocks {
 			for _, in := range b.Instrs {
 				if c, ok := in.(*ssa.Call); ok {
-					if callee := c.Call.StaticCallee(); callee != nil && !seen[callee] && inlineOK(callee) {
+					if callee := c.Call.StaticCallee(); callee != nil && !seen[callee] && isHelper(callee) {
 						seen[callee] = true
 						out = append(out, callee)
 					}
